@@ -24,6 +24,15 @@ def getOptStr? (j : Json) : Option (Option String) :=
 inductive TCall where
   | mut (c : Call String)
   | elapsed (t : Nat) (label : Option String) (total : Bool)
+  /-- `ContextTimer(timer, label, action).__enter__()` / `.__exit__()` -/
+  | ctx (t : Nat) (enter : Bool) (label : Option String) (a : CtxAction)
+  /-- `str(timer)` -/
+  | str (t : Nat)
+
+def getAction? : String → Option CtxAction
+  | "StartStop" => some .startStop
+  | "StopStart" => some .stopStart
+  | _ => none
 
 def getTCall? (j : Json) : Option TCall := do
   let t ← fNat? j "t"
@@ -33,29 +42,59 @@ def getTCall? (j : Json) : Option TCall := do
   | "stop" => some (.mut ⟨t, .stop, ← fArg? j "arg"⟩)
   | "reset" => some (.mut ⟨t, .reset, ← fArg? j "arg"⟩)
   | "elapsed" => some (.elapsed t (← (field? j "arg").bind getOptStr?) (← fBool? j "total"))
+  | "ctx_enter" => some (.ctx t true (← (field? j "arg").bind getOptStr?) (← getAction? (← fStr? j "action")))
+  | "ctx_exit" => some (.ctx t false (← (field? j "arg").bind getOptStr?) (← getAction? (← fStr? j "action")))
+  | "str" => some (.str t)
   | _ => none
 
 def optToInt : Option Nat → Int
   | some n => n
   | none => -1
 
-/-- replay a timer history on the model and, independently, on the stop-watch specification -/
-def timerSession (cfg : Cfg String) (calls : List TCall) : List Int × List Int × List (List String) :=
+/-- the call a context-manager entry / exit amounts to (for the history-based specification) -/
+def ctxCall (t : Nat) (enter : Bool) (label : Option String) (a : CtxAction) : Call String :=
+  let isStart := (a == .startStop) == enter
+  ⟨t, if isStart then .start else .stop, ctxArg label⟩
+
+def jStrRow (r : StrRow String) : Json :=
+  jArr [jS r.label, jN r.accum, match r.current with | some c => jN c | none => Json.null]
+
+/-- replay a timer history on the model and, independently, on the stop-watch specification;
+    per call: model result, specification result, keys, and (for `str`) the rows of the table -/
+def timerSession (cfg : Cfg String) (calls : List TCall) :
+    List Int × List Int × List (List String) × List Json :=
   let T0 : Timer String := Timer.init cfg.init cfg.dflt cfg.all
   let rec go (T : Timer String) (pre : List (Call String)) :
-      List TCall → List Int × List Int × List (List String)
-    | [] => ([], [], [])
+      List TCall → List Int × List Int × List (List String) × List Json
+    | [] => ([], [], [], [])
     | .mut c :: rest =>
       let r := T.apply c
       let m : Int := if r.2 then 0 else -1
       let s : Int := if raisesKey cfg pre c then -1 else 0
-      let (ms, ss, ks) := go r.1 (pre ++ [c]) rest
-      (m :: ms, s :: ss, r.1.store.keys :: ks)
+      let (ms, ss, ks, xs) := go r.1 (pre ++ [c]) rest
+      (m :: ms, s :: ss, r.1.store.keys :: ks, Json.null :: xs)
+    | .ctx t enter l a :: rest =>
+      let r := if enter then ctxEnter T l a t else ctxExit T l a t
+      let c := ctxCall t enter l a
+      let m : Int := if r.2 then 0 else -1
+      let s : Int := if raisesKey cfg pre c then -1 else 0
+      let (ms, ss, ks, xs) := go r.1 (pre ++ [c]) rest
+      (m :: ms, s :: ss, r.1.store.keys :: ks, Json.null :: xs)
     | .elapsed t l tot :: rest =>
       let m := optToInt (T.elapsed l tot t)
       let s := optToInt (specElapsed cfg pre l tot t)
-      let (ms, ss, ks) := go T pre rest
-      (m :: ms, s :: ss, T.store.keys :: ks)
+      let (ms, ss, ks, xs) := go T pre rest
+      (m :: ms, s :: ss, T.store.keys :: ks, Json.null :: xs)
+    | .str t :: rest =>
+      let rows := T.strRows (fun a b => decide (a < b)) t
+      let pinned := (T.strRowsPinned (fun a b => decide (a < b)) t).isSome
+      -- specification side: total / current of every row through the history-based stop-watch
+      let okSpec := rows.all (fun r =>
+        specElapsed cfg pre (some r.label) true t == some (r.accum + r.current.getD 0) &&
+        specElapsed cfg pre (some r.label) false t == some (r.current.getD 0))
+      let (ms, ss, ks, xs) := go T pre rest
+      ((if okSpec then 0 else -2) :: ms, 0 :: ss, T.store.keys :: ks,
+        jObj [("rows", jArr (rows.map jStrRow)), ("pinned_ok", jB pinned)] :: xs)
   go T0 [] calls
 
 /-! ### solve sessions -/
@@ -87,6 +126,8 @@ structure Tables where
   stepTicks : Array Nat
   cbTicks : Array Nat
   vars : Array (List (Var Bool))   -- entry k-1: working variables after k steps
+  /-- entry j: what callback invocation number j assigns to (`itnum`, `maxiter`), if anything -/
+  ctl : Array (Option Int × Option Int) := #[]
 
 def envOf (tb : Tables) : Env W Nat Nat Bool :=
   { step := fun w => (w.1 + 1, w.2)
@@ -96,8 +137,12 @@ def envOf (tb : Tables) : Env W Nat Nat Bool :=
     fields := fun w => w.1
     minimizer := fun w => w.1 }
 
-def cbOf (tb : Tables) : Callback W :=
-  { run := fun w => (w.1, w.2 + 1), ticks := fun w => tb.cbTicks.getD w.2 0 }
+def cbOf (tb : Tables) : CallbackX W :=
+  { run := fun w => (w.1, w.2 + 1), ticks := fun w => tb.cbTicks.getD w.2 0,
+    ctl := fun w i m =>
+      match tb.ctl[w.2]? with
+      | some (a, b) => (a.getD i, b.getD m)
+      | none => (i, m) }
 
 def outcomeStr : Outcome → String
   | .ok => "ok"
@@ -112,11 +157,14 @@ def sessionRun (tb : Tables) (pinnedItnum : Bool) : Drv W Nat String → List SO
   | d, .solve m cb :: rest =>
     let d0 := d.setMaxiter m
     let cbv := if cb then some (cbOf tb) else none
-    let (d1, o) := solve (envOf tb) cbv d0
+    -- repaired behaviour (`late = false`); the tree as it is (`late = true`) differs in the counter only
+    let (d1, o) := solveX false (envOf tb) cbv d0
+    let itLate : Int := (solveX true (envOf tb) cbv d0).1.itnum
     -- the pinned tree's counter defect, reported separately (classification of a known finding only)
     let itPinned : Int := if o == .ok && m ≤ 0 then solvePinnedItnum m d1.itnum else d1.itnum
     let _ := pinnedItnum
     let out := jObj [("outcome", jS (outcomeStr o)), ("itnum", jI d1.itnum), ("itnum_pinned", jI itPinned),
+      ("itnum_late", jI itLate), ("maxiter", jI d1.maxiter),
       ("clock", jN d1.clock),
       ("rows", jArr ((d1.rows.drop d.rows.length).map jRow)),
       ("cbs", jArr ((d1.cblog.drop d.cblog.length).map jCb)),
@@ -159,8 +207,9 @@ def handler : Handler := fun op j =>
   | "timer" => do
     let cfg : Cfg String := ⟨← fArg? j "init", ← fStr? j "dflt", ← fStr? j "all"⟩
     let calls ← (← fList? j "calls").mapM getTCall?
-    let (m, s, ks) := timerSession cfg calls
-    some (ok (jObj [("model", jIs m), ("spec", jIs s), ("keys", jArr (ks.map (fun k => jArr (k.map jS))))]))
+    let (m, s, ks, xs) := timerSession cfg calls
+    some (ok (jObj [("model", jIs m), ("spec", jIs s), ("keys", jArr (ks.map (fun k => jArr (k.map jS)))),
+                    ("extra", jArr xs)]))
   | "session" => do
     let ops ← (← fList? j "ops").mapM getSOp?
     let st ← fNats? j "stepTicks"
@@ -170,7 +219,18 @@ def handler : Handler := fun op j =>
     -- the tables must cover every step / callback the session can reach: never default
     if st.length < n ∨ ct.length < n ∨ vs.length < n then none
     else
-      let tb : Tables := ⟨st.toArray, ct.toArray, vs.toArray⟩
+      let getOI (x : Json) : Option (Option Int) := match x with
+        | .null => some none
+        | v => (getInt? v).map some
+      let ctl ← match field? j "ctl" with
+        | none => some []
+        | some c => (getList? c).bind (fun l => l.mapM (fun e => match e with
+            | .null => some (none, none)
+            | v => do
+              match ← getList? v with
+              | [a, b] => some (← getOI a, ← getOI b)
+              | _ => none))
+      let tb : Tables := ⟨st.toArray, ct.toArray, vs.toArray, ctl.toArray⟩
       let o : Scico.Driver.Options := { iter0 := ← fInt? j "iter0", maxiter := 100, nanstop := ← fBool? j "nanstop" }
       let d : Drv W Nat String := Drv.init (0, 0) o "main" "all" (← fNat? j "clock")
       some (ok (jArr (sessionRun tb false d ops)))
@@ -188,6 +248,13 @@ def handler : Handler := fun op j =>
     let c ← (fStr? j "cls").bind optClass?
     let sv ← (fStr? j "solver").bind admmSolver?
     some (ok (jArr ((fieldNames c sv (← fBool? j "obj")).map jS)))
+  | "fieldspecs" => do
+    let c ← (fStr? j "cls").bind optClass?
+    let sv ← (fStr? j "solver").bind admmSolver?
+    let fs := fieldSpecs c sv (← fBool? j "obj")
+    some (ok (jObj [("specs", jArr (fs.map (fun f => jArr [jS f.name, jS f.fmt, jS f.attrib]))),
+                    ("source", jS (itstatFuncSource (fs.map (·.attrib)))),
+                    ("vars", jArr ((workingVarNames c).map jS))]))
   | "finite" => do
     let vs ← (← fList? j "vars").mapM getVar?
     some (ok (jObj [("fixed", jB (workingVarsFinite id vs)), ("pinned", jB (workingVarsFinitePinned id vs))]))
